@@ -92,21 +92,15 @@ def hx(s):
     return "=" + s.encode().hex()
 
 
-# The counterexamples of Props/C18.v (Proofs/XeRefute.v) as XML, with what the REAL reader must show for
-# them to stand: (finding class, base file, variant file, predicate on (base result, variant result)).
+# The former counterexamples of property C18 (Proofs/XeRefute.v) as XML: with the repairs of the crate the variant is
+# read exactly like the base document: (finding class, base file, variant file, predicate on (base result, variant result)).
 REFUTATIONS = [
-    ("foreign-same-local-name", "w_base", "w_same_name",
-     lambda b, v: field(b, "guid") == hx("real") and field(v, "guid") == hx("fake")),
-    ("foreign-first-child-of-leaf", "w_base", "w_before_text",
-     lambda b, v: field(b, "guid") == hx("real") and field(v, "guid") == "="),
-    ("foreign-first-child-of-leaf", "w_base", "w_comment_before_text",
-     lambda b, v: field(b, "guid") == hx("real") and field(v, "guid") == "="),
-    ("foreign-first-child-of-leaf", "w_bad_number", "w_bad_number_hidden",
-     lambda b, v: b == "E:Invalid" and v.startswith("OK ")),
-    ("foreign-descendant-capture", "w_data3d", "w_data3d_captured",
-     lambda b, v: field(b, "pcs") == "0" and field(v, "pcs") == "1"),
-    ("foreign-descendant-capture", "w_limits", "w_limits_captured",
-     lambda b, v: field(b, "il") == "I:1,I:2" and field(v, "il") == "I:7,I:2"),
+    ("foreign-same-local-name", "w_base", "w_same_name", lambda b, v: b == v and field(v, "guid") == hx("real")),
+    ("foreign-first-child-of-leaf", "w_base", "w_before_text", lambda b, v: b == v and field(v, "guid") == hx("real")),
+    ("foreign-first-child-of-leaf", "w_base", "w_comment_before_text", lambda b, v: b == v and field(v, "guid") == hx("real")),
+    ("foreign-first-child-of-leaf", "w_bad_number", "w_bad_number_hidden", lambda b, v: b == "E:Invalid" and v == "E:Invalid"),
+    ("foreign-descendant-capture", "w_data3d", "w_data3d_captured", lambda b, v: b == v and field(v, "pcs") == "0"),
+    ("foreign-descendant-capture", "w_limits", "w_limits_captured", lambda b, v: b == v and field(v, "il") == "I:1,I:2"),
 ]
 # positive examples of Props/C18.v on the real reader
 POSITIVE = [
